@@ -44,6 +44,12 @@ def run(ck: Checker, prog: Program, tier: str):
     ck.guard(_orientation_step, ck, prog)
     ck.guard(_r2, ck, prog)
     ck.guard(_r3_r4, ck, prog)
+    # the corner frequencies / window length / detrend type a run reads are its own settings object's, not state shared through
+    # a default argument (rule of C15)
+    from . import c15
+    with ck.borrow(c15, "C10.R1+"):
+        for cname in ("PreProcessingSettings", "HvsrPreProcessingSettings"):
+            ck.guard(c15.check_default_sharing, ck, prog, "C15.R5", prog.cls(cname))
 
 
 def _orientation_step(ck: Checker, prog: Program):
